@@ -395,6 +395,21 @@ def run_case(model, cfg, hist, reward_kind, owned=None):
             except Exception as e:  # noqa: BLE001
                 out, val = "error", e
             fs = compare_step(w, rec, out, val, before)
+            if out == "broke" and rec["stamp"] == -1 and frac(rec["nlv"]) is not None and rec["out"] != "ended":
+                # the decision arrived insolvent: it executed nothing and ended the episode (that this step raises instead of
+                # returning done is the recorded finding); whatever the caller does next is refused until reset
+                p0, e0, n0 = w.pos(), len(w.env.broker.track_record), w.env.now()
+                try:
+                    w.env.step(a)
+                    o2 = "ok"
+                except EndOfEpisodeError:
+                    o2 = "ended"
+                except Exception:  # noqa: BLE001
+                    o2 = "error"
+                # a refusal changes nothing: no trade, no entry, and no further market event is processed (the clock stands)
+                if o2 == "ok" or w.pos() != p0 or len(w.env.broker.track_record) != e0 or w.env.now() != n0:
+                    fs.append(("ended", "after the insolvent decision ended the episode a further step was not refused (outcome %s, "
+                                        "positions %s -> %s, clock %s -> %s)" % (o2, p0, w.pos(), n0, w.env.now()), ""))
             for c, d, extra in fs:
                 fails.append((i, c, d, extra))
             if out != rec["out"] or out != "ok" or (fs and (owned is None or any(f[0] in owned for f in fs))):
